@@ -509,12 +509,14 @@ func parseLiteral(literal []byte) (byte, any, error) {
 					strlen--
 				} else if i > 0 || i == 0 && c != '-' && c != '+' {
 					integer = false
-					if i == 0 || c != '.' {
+					if i > 0 && (c == 'e' || c == 'E') {
+						hasExp = true
+					} else if c != '.' {
 						number = false
 					}
 				}
 			} else if number {
-				if hasExp && !afterExp && c == '-' || c == '+' {
+				if hasExp && !afterExp && (c == '-' || c == '+') {
 					afterExp = true
 				} else if c == 'E' || c == 'e' {
 					hasExp = true
@@ -551,12 +553,13 @@ func parseLiteral(literal []byte) (byte, any, error) {
 		} else if number {
 			switch numberType {
 			case 'F', 'f':
-				num, err := strconv.ParseFloat(string(literal[:strlen-1]), 64)
+				num, err := strconv.ParseFloat(string(literal[:strlen-1]), 32)
 				return TagFloat, float32(num), err
 			case 'D', 'd':
-				fallthrough
-			default:
 				num, err := strconv.ParseFloat(string(literal[:strlen-1]), 64)
+				return TagDouble, num, err
+			default: // no suffix: the whole literal is the number
+				num, err := strconv.ParseFloat(string(literal), 64)
 				return TagDouble, num, err
 			}
 		} else if unqstr {
